@@ -977,8 +977,27 @@ fn check_sockets(st: &mut CStats, sockets_run: &mut u64, sockets_unavailable: &m
                                     None => return Err(format!("client saw end-of-stream instead of response {k}")),
                                 }
                             }
-                            drop(client);
+                            // one end closes its writing side (where the medium can signal that):
+                            // the other end sees end-of-stream, and what it writes afterwards still
+                            // reaches the end that closed
+                            client.close().await.map_err(|e| format!("client close: {e}"))?;
                             match server.next().await {
+                                None => {}
+                                Some(Ok(m)) => return Err(format!("extra message after the writer closed: {:.80?}", m)),
+                                Some(Err(e)) => return Err(format!("error instead of end-of-stream after the writer closed: {e}")),
+                            }
+                            for k in 0..2u64 {
+                                let (sent, got) = tokio::join!(server.send(Response { request_id: 900 + k, message: Ok("after the other side closed".to_string()) }), client.next());
+                                sent.map_err(|e| format!("server send after the client closed its writing side: {e}"))?;
+                                match got {
+                                    Some(Ok(r)) if r.request_id == 900 + k => {}
+                                    Some(Ok(other)) => return Err(format!("client read {:.80?} instead of response {}", other, 900 + k)),
+                                    Some(Err(e)) => return Err(format!("client read error after closing its writing side: {e}")),
+                                    None => return Err("the end that closed its writing side saw end-of-stream although the other end was still writing".to_string()),
+                                }
+                            }
+                            drop(server);
+                            match client.next().await {
                                 None => Ok(()),
                                 Some(Ok(m)) => Err(format!("extra message after the writer was dropped: {:.80?}", m)),
                                 Some(Err(e)) => Err(format!("error instead of end-of-stream after the writer was dropped: {e}")),
